@@ -14,8 +14,10 @@ import (
 	"sort"
 	"strings"
 	"sync/atomic"
+	"syscall"
 	"testing"
 	"testing/synctest"
+	"time"
 
 	"github.com/alibaba/RedisShake/pkg/libs/log"
 	"github.com/alibaba/RedisShake/pkg/rdb"
@@ -209,7 +211,27 @@ func c17RunFile(c c17Case, files [][]rdbgen.Item) (kind, what string) {
 	dir := os.Getenv("VERIF_SCRATCH")
 	in := filepath.Join(dir, fmt.Sprintf("c17-%d.rdb", os.Getpid()))
 	outp := filepath.Join(dir, fmt.Sprintf("c17-%d.json", os.Getpid()))
-	ioutil.WriteFile(in, file, 0644)
+	if c.Sub == "slow" {
+		// the input arrives slowly (a named pipe fed in two halves, more than one progress tick
+		// apart): the once-per-second progress loop runs while the decode is still going on
+		in += ".fifo"
+		os.Remove(in)
+		if err := syscall.Mkfifo(in, 0600); err != nil {
+			return "", ""
+		}
+		go func() {
+			f, err := os.OpenFile(in, os.O_WRONLY, 0)
+			if err != nil {
+				return
+			}
+			defer f.Close()
+			f.Write(file[:len(file)/2])
+			time.Sleep(1300 * time.Millisecond)
+			f.Write(file[len(file)/2:])
+		}()
+	} else {
+		ioutil.WriteFile(in, file, 0644)
+	}
 	defer os.Remove(in)
 	defer os.Remove(outp)
 	conf.Options.Parallel = c.Parallel
@@ -596,9 +618,17 @@ func TestVerif_C17Race(t *testing.T) {
 			break
 		}
 	}
-	ev.Eval(3)
-	ev.Trace(3)
-	ev.Trans(3)
-	ev.StatesAdd(3)
-	ev.NontrivialAdd(3)
+	// the same input arriving over more than one progress tick
+	slow := c17Case{Sub: "slow", File: 0, Parallel: 4}
+	if k, w := c17RunFile(slow, [][]rdbgen.Item{items}); k != "" {
+		if len(w) > 500 {
+			w = w[:500] + "..."
+		}
+		ev.Violate("C17|slow-input|"+k, "decode with 4 workers, input arriving in two halves 1.3 s apart: "+w, slow)
+	}
+	ev.Eval(4)
+	ev.Trace(4)
+	ev.Trans(4)
+	ev.StatesAdd(4)
+	ev.NontrivialAdd(4)
 }
